@@ -163,6 +163,11 @@ static inline uint32_t ilog2(uint64_t x) {
 }
 #define ARRAY_LEN(a) (sizeof(a) / sizeof((a)[0]))
 
+// allocation-failure injection (only in the build with -DVP_OOM): while armed, every malloc-family request of the calling thread fails
+int vp_oom_available(void);
+void vp_oom_arm(int on);
+uint64_t vp_oom_failed(void);
+
 // property entry points
 void run_C01(void); void run_C02(void); void run_C03(void); void run_C04(void); void run_C05(void);
 void run_C06(void); void run_C07(void); void run_C08(void); void run_C09(void); void run_C10(void);
